@@ -38,7 +38,7 @@ def main():
             res["baseline_tail"] = [l for l in out.splitlines() if l.startswith("test result")]
             shutil.copy(demo, os.path.join(wt, "tests", "seed_demo.rs"))
             rc1, out1 = sh("cargo test --offline --test seed_demo 2>&1 | tail -25", cwd=wt)
-            res["demo_fails_with_change"] = "test result: FAILED" in out1 or "panicked" in out1 and "test result: ok" not in out1
+            res["demo_fails_with_change"] = ("test result: FAILED" in out1 or "panicked" in out1 or "could not compile" in out1 or "error[E" in out1) and "test result: ok" not in out1
             sh("git apply -R %s" % patch, cwd=wt)
             rc2, out2 = sh("cargo test --offline --test seed_demo 2>&1 | tail -25", cwd=wt)
             res["demo_passes_without_change"] = "test result: ok" in out2 and "FAILED" not in out2
